@@ -34,6 +34,9 @@ func (x *Exec) evalInstr(st *State, fr *Frame, b *ssa.BasicBlock, idx int, v ssa
 		fr.env[in] = x.binop(st, in.Op, x.val(st, fr, in.X), x.val(st, fr, in.Y), in.X.Type(), in.Pos())
 	case *ssa.UnOp:
 		fr.env[in] = x.unop(st, fr, in)
+		if in.Op == token.MUL {
+			x.assumeLoadedRange(st, fr.env[in], in.Type())
+		}
 	case *ssa.ChangeType:
 		fr.env[in] = x.val(st, fr, in.X)
 	case *ssa.ChangeInterface:
@@ -101,6 +104,7 @@ func (x *Exec) evalInstr(st *State, fr *Frame, b *ssa.BasicBlock, idx int, v ssa
 	case *ssa.Field:
 		s := x.val(st, fr, in.X)
 		fr.env[in] = x.fieldOf(st, s, in.X.Type(), in.Field)
+		x.assumeLoadedRange(st, fr.env[in], in.Type())
 	case *ssa.IndexAddr:
 		fr.env[in] = x.indexAddr(st, fr, in)
 	case *ssa.Index:
@@ -442,6 +446,17 @@ func (x *Exec) cmpNil(st *State, op token.Token, a, b Val) Val {
 	}
 	_, an := a.(NilV)
 	_, bn := b.(NilV)
+	// a typed nil slice constant
+	if sa, ok := a.(*SliceV); ok && sa.Back < 0 && !bn {
+		if _, isSl := b.(*SliceV); isSl {
+			an = true
+		}
+	}
+	if sb, ok := b.(*SliceV); ok && sb.Back < 0 && !an {
+		if _, isSl := a.(*SliceV); isSl {
+			bn = true
+		}
+	}
 	var r T
 	switch {
 	case an && bn:
@@ -1066,7 +1081,7 @@ func (x *Exec) callFunc(st *State, fr *Frame, ci *callInfo, fn *ssa.Function, ar
 	}
 	if fn.Blocks != nil && strings.Contains(name, "MinterTeam/mhub2") {
 		spec := x.specs.lookup(fn)
-		if spec != nil && spec.HasContract() && fn != x.rootFn && !x.specs.forceInline[name] {
+		if spec != nil && spec.HasContract() && fn != x.rootFn && !x.specs.forceInline[name] && (!x.effectsMode || (spec.Pure && !strings.Contains(fn.String(), "Keeper"))) {
 			x.byContract[name] = true
 			x.applyContract(st, fr, ci, fn, spec, args, k)
 			return
@@ -1600,4 +1615,23 @@ func copyDestination(v ssa.Value) bool {
 		}
 	}
 	return false
+}
+
+// assumeLoadedRange: a value of a machine integer type read out of a data structure lies in the type's range (the
+// type invariant of the field; fresh symbolic values get it when they are created, values selected out of SMT
+// datatypes get it here).
+func (x *Exec) assumeLoadedRange(st *State, v Val, t types.Type) {
+	tv, ok := v.(T)
+	if !ok || tv.So != SInt {
+		return
+	}
+	if _, lit := isLit(tv); lit {
+		return
+	}
+	if !strings.HasPrefix(tv.S, "(") {
+		return // a constant symbol: constrained at creation
+	}
+	if r := intRange(tv, t); r.S != "true" {
+		st.assume(r, "machine range of a loaded value")
+	}
 }
